@@ -107,7 +107,9 @@ def step (st : St) (j : Json) : St × List String :=
     ({ store := s' }, ["new " ++ (match r with
       | .ok (kid, ref, k) => s!"ok kid={kid} name={ref.keyName} ver={ref.version} key=K{k}"
       | .error e => s!"err:{e.name} key=K{s.nextKey}")])
-  | "link" => ({ store := link s (jStr j "kid") (jStr j "keyName") (jStr j "version") }, ["link ok"])
+  | "link" =>
+    let (s', r) := link s (jStr j "kid") (jStr j "keyName") (jStr j "version")
+    ({ store := s' }, ["link " ++ kres r (fun _ => "")])
   | "delete" =>
     let (s', r) := delete validStr s (jStr j "kid")
     ({ store := s' }, ["delete " ++ kres r (fun _ => "")])
@@ -134,7 +136,7 @@ def step (st : St) (j : Json) : St × List String :=
     (st, [s!"signjwt {jStr j "via"} " ++ showHdr r])
   | "jwkclass" =>
     let rt := jStr j "raw"
-    (st, [s!"jwkclass {jStr j "id"} dpop-private={dpopJwkIsPrivate rt}"])
+    (st, [s!"jwkclass {jStr j "id"} dpop-private={dpopJwkIsPrivate rt} didjwk={didJwkOutcome rt}"])
   | o => (st, ["bad-op:" ++ o])
 
 end Nuts.Drv.C03
